@@ -179,7 +179,7 @@ def msgToks (evs : List Ev) : List String :=
   evs.filterMap fun
     | .reply s w => some s!"{s}:{replyTok w}"
     | .deliver to w frm => some s!"{to}:{w}<{frm}"
-    | .tev to w => some s!"{to}:{w}"
+    | .tev to w _ => some s!"{to}:{w}"
     | _ => none
 
 def logToks (evs : List Ev) : List String :=
